@@ -599,13 +599,22 @@ def check_element_independence(cfg, queries, size, levy, entropy=9):
         numel *= s
     orig = _bi._randn
 
-    def run(elem):
+    def run(elem, levy_row=None):
         def _randn(sz, dtype, device, seed):
             out = orig(sz, dtype, device, seed)
             if elem is not None and tuple(sz) == tuple(size):
                 flat = out.reshape(-1).clone()
                 flat[elem] += 0.5
                 out = flat.reshape(out.shape)
+            elif levy_row is not None and tuple(sz) != tuple(size):
+                # any other draw is Levy-area noise: it must carry the batch dimensions of the sample, so that the
+                # noise of ONE batch row can be perturbed; if it does not, the perturbation hits every row
+                out = out.clone()
+                if len(sz) == len(size) + 1 and tuple(sz[:len(size) - 1]) == tuple(size[:-1]) and len(size) >= 2:
+                    out.reshape(-1, *sz[-2:])[levy_row] += torch.tensor([[0.0, 0.5], [0.25, 0.0]], dtype=dtype).repeat(
+                        (sz[-2] + 1) // 2, (sz[-1] + 1) // 2)[:sz[-2], :sz[-1]]
+                else:
+                    out += 0.5 * torch.arange(out.numel(), dtype=dtype).reshape(out.shape) / max(1, out.numel())
             return out
         _bi._randn = _randn
         try:
@@ -639,6 +648,23 @@ def check_element_independence(cfg, queries, size, levy, entropy=9):
                     leaked = [i for i in range(d.numel()) if i != row and bool(d[i])]
                     if leaked:
                         fails.append(("element_crosstalk", dict(tensor="A", elem=elem, leaked_rows=leaked[:4], at=k)))
+        # Levy-area noise: perturbing the noise of one batch row changes A of that row only
+        if levy in ("davie", "foster") and len(size) >= 2:
+            nrows = 1
+            for d_ in size[:-1]:
+                nrows *= d_
+            for row in sorted({0, nrows - 1}):
+                got = run(None, levy_row=row)
+                changed_any = False
+                for k, (r, g) in enumerate(zip(ref, got)):
+                    if r[2] is None:
+                        continue
+                    d = (r[2] != g[2]).reshape(nrows, -1).any(-1)
+                    changed_any = changed_any or bool(d[row])
+                    leaked = [i for i in range(nrows) if i != row and bool(d[i])]
+                    if leaked:
+                        fails.append(("levy_noise_crosstalk", dict(row=row, leaked_rows=leaked[:4], at=k)))
+                        break
         # rows (and elements) of a genuine sample differ pairwise
         flat = ref[-1][0].reshape(-1)
         if flat.numel() > 1 and len(set(flat.tolist())) != flat.numel() and float(flat.abs().max()) != 0.0:
@@ -646,3 +672,53 @@ def check_element_independence(cfg, queries, size, levy, entropy=9):
     except Exception as e:  # noqa: BLE001
         fails.append(("exception", dict(exc=type(e).__name__, msg=str(e)[:200])))
     return fails
+
+
+# ------------------------------------------------------------------------------------------
+# Constructor pipeline (spec/BrownianCtor.tla)
+# ------------------------------------------------------------------------------------------
+
+def ctor_outcome(c):
+    """Construct the real BrownianInterval for one configuration of BrownianCtor and, if accepted, ask a few
+    in-range queries.  Returns 'ok', 'ValueError', another exception name, or 'query:<exc>'."""
+    shape = SHAPES[c["shape"]]
+    other = {(): (2,), (3,): (4,), (2, 3): (3, 2)}[shape]
+    t0, t1 = {"lt": (0.0, 1.0), "eq": (0.5, 0.5), "gt": (1.0, 0.0)}[c["order"]]
+    kw = dict(t0=t0, t1=t1, tol={"neg": -1e-3, "zero": 0.0, "pos": 1e-3}[c["tol"]],
+              cache_size={"none": None, "zero": 0, "one": 1, "many": 45}[c["cache"]],
+              levy_area_approximation=c["levy"], halfway_tree=bool(c["halfway"]), entropy=17)
+    if c["dt"] == "pos":
+        kw["dt"] = 0.125
+    g = torch.Generator().manual_seed(1)
+    src = c["src"]
+    if src in ("size", "size+W", "mismatch"):
+        kw["size"] = shape
+        kw["dtype"] = torch.float64
+    if src in ("W", "WH", "size+W"):
+        kw["W"] = torch.randn(shape, dtype=torch.float64, generator=g)
+    if src == "WH":
+        kw["H"] = torch.randn(shape, dtype=torch.float64, generator=g)
+    if src == "mismatch":
+        kw["W"] = torch.randn(other, dtype=torch.float64, generator=g)
+    if src == "intW":
+        kw["W"] = torch.ones(shape, dtype=torch.int64)
+    with warnings.catch_warnings():
+        warnings.simplefilter("ignore")
+        try:
+            bm = torchsde.BrownianInterval(**kw)
+        except ValueError:
+            return "ValueError"
+        except Exception as e:  # noqa: BLE001
+            return type(e).__name__
+        try:
+            levy = c["levy"]
+            ask = _ask_fn(bm, levy)
+            mid = 0.5 * (t0 + t1)
+            for (a, b) in ((t0, t1), (t0, mid), (mid, t1), (mid, mid), (t0 + 0.25 * (t1 - t0), mid), (t0, t1)):
+                W, U, A = ask(a, b)
+                if tuple(W.shape) != tuple(shape):
+                    return "query:shape"
+            bm(mid)
+        except Exception as e:  # noqa: BLE001
+            return "query:" + type(e).__name__
+    return "ok"
